@@ -483,6 +483,9 @@ def do_step(w, op):
         g = rng.choice(c) if rng.random() < 0.6 else None
         o = torchtt.elementwise_divide(x, y, nswp=4, starting_tensor=P[g] if g is not None else None, eps=1e-6)
         w.add(o, "KNew %s" % shlist_coq(o))
+        if g is not None and (w.force or rng.random() < 0.3):      # no sweep at all: what comes back is the guess, as an object of its own, and the guess is not written to
+            o0 = torchtt.elementwise_divide(x, y, nswp=0, starting_tensor=P[g], eps=1e-6)
+            w.add(o0, "KNew %s" % shlist_coq(o0))
         if w.force or rng.random() < 0.3:
             o2 = torchtt.elementwise_divide(x, y, nswp=4, starting_tensor=o, eps=1e-6)
             w.add(o2, "KNew %s" % shlist_coq(o2)); return "divide(%d,guess=%s) and again with the quotient as guess" % (i, g), None
